@@ -84,7 +84,13 @@ var joeParent struct {
 	child *joeChild
 	shm   *os.File
 	seq   uint64
+	stuck int // scenarios of this run that ended with calls stranded (status 2)
 }
+
+// jStuckMax: a run stops making scenarios once that many have stranded calls.  Each costs the 10 s deadline, and a
+// run that exceeds the family's time limit (600 s, bin/props.d/joe.py) loses ALL its cases, the violating ones
+// included: 30 stuck scenarios are 300 s.  On the unchanged code no scenario is stuck.
+const jStuckMax = 30
 
 func joeShm() *os.File {
 	if joeParent.shm != nil {
@@ -235,6 +241,9 @@ func execJoe(in val.V) val.V {
 			if err != nil {
 				return crashed(1)
 			}
+			if res.At(0).Num() == 2 {
+				joeParent.stuck++
+			}
 			if res.At(0).Num() != 0 || joeUsesServer(sc) {
 				// a stuck scenario: the child exits by itself (its goroutines are leaked).
 				// A scenario that went through sse.Server: the next one gets a fresh process, so that whatever the
@@ -245,6 +254,7 @@ func execJoe(in val.V) val.V {
 			}
 			return res
 		case <-limit.C:
+			joeParent.stuck++
 			return crashed(2) // not even the child's own deadline fired
 		}
 	}
